@@ -182,7 +182,7 @@ func VHarness_C17_TransferAbort() {
 // un-pauses a waiting remote and triggers replication when it lags; a rejected
 // replication strictly lowers next unless the rejection is stale; a snapshot
 // status report moves a remote out of the snapshot state.
-// vcheck: props=C02 reach=unpaused,resent,snapshot-done,backoff,done workers=16
+// vcheck: props=C02 reach=unpaused,resent,snapshot-done,backoff,rate-limited-leader,done workers=16
 func VHarness_C17_FlowControl() {
 	o := vRaftOpts{pairs: [][2]uint64{{vS3, 1}, {vS4, 1}}, log: vLogOpts{maxPers: 1, maxWin: 2, noAppliedTo: true, allSaved: true}, roles: []State{leader}, remotes: true}
 	r, c := vRaft(o)
@@ -193,6 +193,19 @@ func VHarness_C17_FlowControl() {
 		rm = r.nonVotings[c.focus]
 	}
 	vAssume(vImplies(rm.state == remoteSnapshot, rm.snapshotIndex >= 1))
+	// flow control must not depend on the in-memory log rate limiter: a leader
+	// that is rate limited because of entries it cannot commit yet only gets out
+	// of that state by replicating them
+	if vBool("leaderRateLimited") {
+		rl := server.NewInMemRateLimiter(1000)
+		r.rl, r.log.inmem.rl = rl, rl
+		rl.Set(2000)
+		for i := 0; i < 3; i++ {
+			rl.Tick()
+		}
+		vAssert(rl.RateLimited(), "setup-limited")
+		vReach("rate-limited-leader")
+	}
 	p := vRecord(r)
 	pre := *rm
 	last := p.log.last()
